@@ -60,11 +60,11 @@ theorem Eb_int (hy : Hyp cfg sh) (m : Meta) (v : Int) : EbStmt cfg sh pc (.int m
 theorem Eb_float (hy : Hyp cfg sh) (m : Meta) (b : UInt64) : EbStmt cfg sh pc (.float m b) := by
   refine Eb_of_primary cfg sh pc (T := tok .number (sh.showFloat b) m.loc) (fun _ _ _ => by simp [body]) ?_
   intro d hc f fw tl
-  simp only [canon] at hc
+  simp only [canon, Bool.and_eq_true] at hc
   rw [parsePrimary]
   simp [unOp, tok, Token.is]
   rw [parsePrimaryExpression]
-  simp [next, hy.float_rt, mk_of_inv hc]
+  simp [next, hy.float_rt b hc.2, mk_of_inv hc.1]
 
 /-! ### binary operators -/
 
